@@ -20,6 +20,7 @@ import (
 	"github.com/tsawler/tabula/contentstream"
 	"github.com/tsawler/tabula/core"
 	"github.com/tsawler/tabula/font"
+	"github.com/tsawler/tabula/rag"
 	"github.com/tsawler/tabula/reader"
 	"github.com/tsawler/tabula/xlsx"
 )
@@ -27,7 +28,7 @@ import (
 // ---------- the isolated worker
 
 // c02Entries: every public entry point that takes a file
-var c02Entries = []string{"Text", "ToMarkdown", "Chunks", "Document", "Fragments", "Analyze", "PageCount", "Lines", "Text+options"}
+var c02Entries = []string{"Text", "ToMarkdown", "ToMarkdown+options", "Chunks", "Document", "Fragments", "Analyze", "PageCount", "Lines", "Text+options"}
 
 func c02Call(entry, path string) {
 	switch entry {
@@ -35,8 +36,13 @@ func c02Call(entry, path string) {
 		tabula.Open(path).Text()
 	case "ToMarkdown":
 		tabula.Open(path).ToMarkdown()
+	case "ToMarkdown+options":
+		tabula.Open(path).ToMarkdownWithOptions(rag.MarkdownOptions{IncludeMetadata: true, IncludeTableOfContents: true, IncludeChunkSeparators: true, IncludePageNumbers: true, IncludeChunkIDs: true})
+		tabula.Open(path).ToMarkdownWithOptions(rag.MarkdownOptions{IncludeTableOfContents: true, HeadingLevelOffset: 3, MaxHeadingLevel: 6})
+		tabula.Open(path).ToMarkdownWithOptions(rag.MarkdownOptions{IncludeTableOfContents: true, HeadingLevelOffset: -2, MaxHeadingLevel: 1})
 	case "Chunks":
 		if cc, _, err := tabula.Open(path).Chunks(); err == nil && cc != nil {
+			cc.ToMarkdownWithOptions(rag.MarkdownOptions{IncludeTableOfContents: true, IncludeMetadata: true})
 			cc.ToJSONL()
 			cc.ToCSV()
 		}
@@ -763,8 +769,8 @@ func c02Directed(rng *RNG) []c02Fault {
 		add("kids-shared-subtree-bomb", c02RawPDF(o, ""))
 		// one page listed very often is fine for the reader but must stay linear
 		o = base()
-		o[1] = "<< /Type /Pages /Kids [" + strings.Repeat("3 0 R ", 20000) + "] /Count 20000 >>"
-		add("kids-one-page-20000-times", c02RawPDF(o, ""))
+		o[1] = "<< /Type /Pages /Kids [" + strings.Repeat("3 0 R ", 6000) + "] /Count 6000 >>"
+		add("kids-one-page-6000-times", c02RawPDF(o, ""))
 		// deep chain of distinct nodes
 		o = []string{"<< /Type /Catalog /Pages 2 0 R >>"}
 		for l := 0; l < 5000; l++ {
@@ -870,6 +876,18 @@ func c02Directed(rng *RNG) []c02Fault {
 		}
 		fmt.Fprintf(&b, "3 0 obj\n%s\nendobj\nstartxref\n%d\n%%%%EOF\n", c02StreamObj(dict, []byte{0, 0, 0, 255, 1, 0, 9, 0, 1, 0, 60, 0, 1, 0, 120, 0}), x)
 		add("xrefstream:"+name, b.Bytes())
+	}
+	// an object stream whose /Length is one of its own members, and one whose /Length is the stream itself
+	for name, lenRef := range map[string]string{"length-inside-itself": "2 0 R", "length-is-itself": "3 0 R"} {
+		var b bytes.Buffer
+		b.WriteString("%PDF-1.7\n1 0 obj\n<< /Type /Catalog /Pages 5 0 R >>\nendobj\n")
+		so := b.Len()
+		members := "2 0 5 3 27 << /Type /Pages /Kids [] /Count 0 >>"
+		fmt.Fprintf(&b, "3 0 obj\n<< /Type /ObjStm /N 2 /First 8 /Length %s >>\nstream\n%s\nendstream\nendobj\n", lenRef, members)
+		x := b.Len()
+		rows := []byte{0, 0, 0, 255, 1, 0, 9, 0, 2, 0, 3, 0, 1, byte(so >> 8), byte(so), 0, 1, byte(x >> 8), byte(x), 0, 2, 0, 3, 1}
+		fmt.Fprintf(&b, "4 0 obj\n%s\nendobj\nstartxref\n%d\n%%%%EOF\n", c02StreamObj("/Type /XRef /Root 1 0 R /Size 6 /W [1 2 1]", rows), x)
+		add("objstm:"+name, b.Bytes())
 	}
 	// object streams
 	for name, d := range map[string]string{
